@@ -9,6 +9,18 @@ use simk::trace::Trace;
 use tiny_std::io::{Read, Write};
 use tiny_std::{Errno, Error};
 
+/// a 448-byte string literal (a literal argument is folded into the format string by rustc)
+macro_rules! LONG_LITERAL {
+    () => {
+        concat!(
+            "0123456789abcdef0123456789abcdef0123456789abcdef0123456789abcdef", "ghijklmnopqrstuvghijklmnopqrstuvghijklmnopqrstuvghijklmnopqrstuv",
+            "0123456789abcdef0123456789abcdef0123456789abcdef0123456789abcdef", "ghijklmnopqrstuvghijklmnopqrstuvghijklmnopqrstuvghijklmnopqrstuv",
+            "0123456789abcdef0123456789abcdef0123456789abcdef0123456789abcdef", "ghijklmnopqrstuvghijklmnopqrstuvghijklmnopqrstuvghijklmnopqrstuv",
+            "0123456789abcdef0123456789abcdef0123456789abcdef0123456789abcdef"
+        )
+    };
+}
+
 pub struct C15;
 
 #[derive(Clone, Copy, PartialEq, Debug)]
@@ -193,11 +205,16 @@ fn gen_bytes(dec: &mut Dec, n: usize, salt: u8) -> Vec<u8> {
 
 fn mk_script(dec: &mut Dec) -> (u32, u32, u32, u32, u32) {
     // swarm: each knob drawn per run
-    let p_eintr = *dec.pick(K::Cfg, &[0, 0, 2, 6, 12]);
+    let mut p_eintr = *dec.pick(K::Cfg, &[0, 0, 2, 6, 12]);
     let p_err = *dec.pick(K::Cfg, &[0, 0, 0, 1, 4]);
     let p_eof = *dec.pick(K::Cfg, &[0, 0, 0, 1, 3]);
     let short_mode = dec.choose(K::Cfg, 4);
-    let eintr_budget = dec.choose(K::Cfg, 12);
+    let mut eintr_budget = dec.choose(K::Cfg, 12);
+    if dec.chance(K::Cfg, 1, 16) {
+        // a signal storm: long runs of consecutive interruptions ("interleaved with EINTR" has no bound)
+        p_eintr = 16;
+        eintr_budget = 17 + dec.choose(K::Cfg, 300);
+    }
     (p_eintr, p_err, p_eof, short_mode, eintr_budget)
 }
 
@@ -393,14 +410,22 @@ fn run_case(dec: &mut Dec, record: bool) -> Outcome {
             let use_fmt = op == 4;
             let n = gen_size(dec).min(5000);
             let input: Vec<u8> = if use_fmt { gen_utf8(dec, n) } else { gen_bytes(dec, n, 5) };
+            let fmt_kind = dec.choose(K::Arg, 6);
             let mut w = SWriter { accepted: Vec::new(), script: mk(dec), flushes: 0 };
             let (res, expect): (tiny_std::Result<()>, Vec<u8>) = if use_fmt {
                 let s = std::str::from_utf8(&input).unwrap();
                 let cut = s.char_indices().map(|(i, _)| i).nth(s.chars().count() / 2).unwrap_or(0);
                 let (a, b) = s.split_at(cut);
                 let num = 1234567u32;
-                let r = w.write_fmt(format_args!("{a}|{num:>9}|{b}{}", '!'));
-                (r, format!("{a}|{num:>9}|{b}!").into_bytes())
+                // format strings without run-time arguments too (`Arguments::as_str()` is Some for
+                // them: an implementation may take a different path)
+                match fmt_kind {
+                    0 => (w.write_fmt(format_args!("")), Vec::new()),
+                    1 => (w.write_fmt(format_args!("x")), b"x".to_vec()),
+                    2 => (w.write_fmt(format_args!("a literal of thirty-three bytes..")), b"a literal of thirty-three bytes..".to_vec()),
+                    3 => (w.write_fmt(format_args!("{}", LONG_LITERAL!())), LONG_LITERAL!().as_bytes().to_vec()),
+                    _ => (w.write_fmt(format_args!("{a}|{num:>9}|{b}{}", '!')), format!("{a}|{num:>9}|{b}!").into_bytes()),
+                }
             } else {
                 (w.write_all(&input), input.clone())
             };
@@ -491,7 +516,7 @@ impl Check for C15 {
         }
     }
     fn rule(&self) -> String {
-        "each case = one seeded script against one helper (read_to_end, read_to_string, read_exact, write_all, write_fmt, and the print!/eprintln! writer of unix::print whose write(2) calls on fd 1/2 are answered by the script at the sc seam): sizes drawn around the 32-byte growth/probe thresholds, initial Vec/String length and capacity incl. exact fit, UTF-8 data with multi-byte characters cut anywhere by short reads, optional invalid byte; every reader/writer call answers by decision with k bytes (1, all, half, random), EOF/0, EINTR (budgeted) or a terminal errno; per-run swarm of fault rates. non-trivial = >=2 calls and at least one short transfer, EINTR or error; distinct = hash of (helper, sequence of (offered length, response))".into()
+        "each case = one seeded script against one helper (read_to_end, read_to_string, read_exact, write_all, write_fmt, and the print!/eprintln! writer of unix::print whose write(2) calls on fd 1/2 are answered by the script at the sc seam): sizes drawn around the 32-byte growth/probe thresholds, initial Vec/String length and capacity incl. exact fit, UTF-8 data with multi-byte characters cut anywhere by short reads, optional invalid byte; every reader/writer call answers by decision with k bytes (1, all, half, random), EOF/0, EINTR (budgeted; one run in 16 is a storm of 17..316 consecutive interruptions) or a terminal errno; per-run swarm of fault rates. non-trivial = >=2 calls and at least one short transfer, EINTR or error; distinct = hash of (helper, sequence of (offered length, response))".into()
     }
     fn assumptions(&self) -> Vec<String> {
         vec![
